@@ -10,9 +10,15 @@ CHECKS = {
  'C07': ("model-based monitor: both real register stores (emu.Wavefront; the timing CU's SimpleRegisterFiles behind wavefront.Wavefront + CURegFileAccessor, 2-6 co-resident wavefronts placed by the real WfDispatcher) driven with the same seeded operand read/write histories, operands harvested from the real decoder, compared with a flat array-of-cells model after every operation and by full sweeps",
          "Held on N operand read/write histories (quick 200x400 + 714 canonical cases + 486 probes; thorough 5000x2000) over s0-s101, v0-v255 x 64 lanes, VCC/EXEC pairs and halves, SCC, M0, widths 1-16 dwords, wavefront placements incl. adjacent/last-slot: every read equals the flat model, every write changes exactly the named cells in both stores, emulation and timing agree. One open known finding (VCC_LO read with RegCount 0 in emulation). Exploration, not proof.",
          "Trusts insts.Disassembler for operand construction (verified per harvest), the typed getters / raw SimpleRegisterFile.Read as independent read-back path, the harness' re-implementation of the dispatcher's placement arithmetic.", "DESIGN.md §3 C07"),
+ 'C08': ("set-arithmetic monitor over the real grid builder's output (NextWG to exhaustion, Skip partitions) and over the real driver's multi-GPU WGFilter closures captured from LaunchKernelReqs sent to fake command processors",
+         "Held on N geometries (quick 3017, thorough 40 017; 1-3 D, non-power-of-two work-group sizes, grids that are not multiples, filters) and M unified-GPU launches (2-4 GPUs, unequal CU counts): the multiset of global ids over enabled lanes (decoded as both compute units decode them: FirstWiFlatID + lane) equals the grid, each exactly once, no lane enabled outside, NumWG() equals the produced count with and without filters, per-GPU work-group sets partition the grid. Register contents at the first instruction in both execution modes (layer 2) are covered indirectly by C02's differential runs, not by this check. Exploration, not proof.",
+         "Trusts the lane -> work-item map read from emu.ComputeUnit.initWfRegs and cu.WfDispatcherImpl.initRegisters (identical loops), the drvkit fake command processors.", "DESIGN.md §3 C08"),
  'C09': ("offline port-trace checker + post-quiescence fill probes: the real command processor, dispatchers (round-robin / greedy / partition, 1-8) and CU resource pool between a fake driver and 1-16 fake compute units with finite resources, adversarial completion order, latency, batching and back-pressure",
          "Held on N scenarios (quick 15 canonical + 300 seeded, thorough 8000; 1-12 overlapping launches, filters, demand from tiny to one group per CU): every work-group of every launch mapped exactly once, SGPR/VGPR/LDS ranges of simultaneously resident groups disjoint and within the advertised capacity, wavefront slots within the pool, exactly one LaunchKernelRsp per launch after the last completion reached the CP, no unanswered launch at engine idle, all resources returned (fill probes). Exploration, not proof.",
          "Trusts akita engine/ports, simkit, the fake CU/driver protocol behaviour, the VerifRebuildDispatchers hook, the grid builder's wavefront lists (judged by C08).", "DESIGN.md §3 C09"),
+ 'C10': ("shadow-model monitor: seeded API histories (allocate, allocate unified, free, remap, distribute, unified devices, 1-4 processes, page sizes 2^12-2^16, default and buddy allocator) on the real driver; after every call every page of every buffer is looked up in the real page table and compared with the shadow; fill / probe-must-refuse / free-k-reallocate-k conservation episodes; command-processing cases against fake command processors",
+         "Held on N histories (quick 2000 + 60 engine cases + 13 canonical; thorough 20 000): live pages found, valid, aligned, inside the memory of their recorded device, device in the requested class, physical pages pairwise distinct and never handed out while owned, pointers aligned and non-overlapping per process, freed buffers fully unmapped and exactly their pages reusable, no crash on within-capacity histories. Exploration, not proof.",
+         "Trusts akita's page table Find, the verif accessors, the monitor's own capacity accounting (remapped-away pages counted as consumed: Remap/Distribute never return the old pages - observed, not judged), the drvkit fake CPs; no concurrent phase (thread-safety of the allocation API is not documented).", "DESIGN.md §3 C10"),
  'C12': ("race detector + exact logical deadlock monitor at tagged yield points + order-revealing workloads (non-commuting kernel chains per queue) + porcupine linearizability check of the bare queue, under PRNG delays and targeted holds at the driver's hand-off points; one child process per batch",
          "Held on N multi-goroutine driver scenarios (emulation and r9nano timing, 1-2 GPUs, 1-6 application goroutines, several queues, enqueue-then-drain and blocking styles, two goroutines draining one queue) and on long loops of blocking copies, under -race with delay injection: every read-back equals the commands applied in submission order, guards untouched, every drain returned (deadlock predicate: all application goroutines parked in Wait, runAsync parked in select, no engine goroutine), no race report in mgpusim code; recorded Enqueue/Peek/Dequeue/NumCommand histories of driver.CommandQueue are linearizable. One open known finding (second queue launches a cached code object before its upload ran). Exploration of schedules, not proof.",
          "Trusts the Go race detector and runtime.Stack goroutine states, the verif yield hooks (no-ops without the tag), the hand-assembled kernels (validated against the real disassembler and both execution modes), porcupine. Race reports whose both accesses are inside the akita module (lazy id generator) are listed in the evidence, not judged.", "DESIGN.md §3 C12"),
